@@ -1,4 +1,5 @@
 import H264.AccumCor
+import H264.SmallProofC08
 /-! # C08 — NAL accumulator shows each NAL from byte 0, completes it once, honours Ignore
 
 Model: `Accum.frag` mirrors `NalAccumulator::nal_fragment`; a history is a list of `Step`s (slices, end flag, and the
@@ -50,5 +51,12 @@ theorem nothing_carries_over (a : Acc) (bufs : List (List UInt8)) (d : Invocatio
 /-- non-vacuity: Buffer, then Ignore, then the end; then a second NAL -/
 example : obs (run init [⟨[[1, 2]], false, .buffer⟩, ⟨[[3]], false, .ignore⟩, ⟨[[4]], true, .buffer⟩, ⟨[[5]], true, .buffer⟩] []).2 =
     [([1, 2], false), ([1, 2, 3], false), ([5], true)] := by decide
+
+/-- **call-level model = real code on a complete small domain, by proof**: every sequence of up to three deliveries out of
+five shapes (empty end, one slice, one slice + end, two slices, two slices + end) × two handler answers (1 111 histories):
+the model invokes the handler on the same deliveries, with the same bytes and completeness flag, as the real
+`NalAccumulator` did in this run's graph -/
+theorem model_accumulator_reproduces_code : (SmallProof.allSeqs 10).map SmallProof.accRow = Generated.accRows :=
+  SmallProof.acc_model_eq_code
 
 end C08
